@@ -154,6 +154,9 @@ func runC12(c *Ctx, r *Report) {
 	defer c12r6(c, r)
 	defer c12r7(c, r)
 	defer c12r8(c, r)
+	defer c12r9(c, r)
+	defer c12r10(c, r)
+	defer c12r11(c, r)
 	defer c09r1(c, r) // {+} lists items in the order they were selected: re-selecting must not re-stamp
 	l := c.L
 	// ---------------- R1 ----------------
